@@ -1,5 +1,6 @@
 (* Properties/C04.v — pinned statements only. *)
-From Boreal Require Import Base.Prelude Base.Res Model.Eval Spec.CondSem Proofs.SemProofs.
+From Boreal Require Import Base.Prelude Base.Res Model.Eval Spec.CondSem Proofs.SemProofs Proofs.AccumOrder.
+From Coq Require Import Permutation.
 
 (* With the string matches of the scan available, the evaluator (early exits, accumulators,
    clamps, occurrence indexes, bound identifiers) computes exactly the declarative three-valued
@@ -39,6 +40,24 @@ Theorem C04_none_is_count : forall os,
   for_loop FNone 0 (map to_res os) = Ok (VBool (count_true (map holds os) =? 0)).
 Proof. exact for_loop_none_sem. Qed.
 
+(* ... hence the early exits never make the answer depend on where the deciding operand stands: any
+   reordering of the (defined or undefined) operand values gives the same answer *)
+Theorem C04_and_order : forall os os', Permutation os os' ->
+  and_loop false (map to_res os) = and_loop false (map to_res os').
+Proof. exact and_loop_order. Qed.
+Theorem C04_or_order : forall os os', Permutation os os' ->
+  or_loop false (map to_res os) = or_loop false (map to_res os').
+Proof. exact or_loop_order. Qed.
+Theorem C04_at_least_order : forall os os' n, 1 <= n -> Permutation os os' ->
+  for_loop (FNum n) 0 (map to_res os) = for_loop (FNum n) 0 (map to_res os').
+Proof. exact for_loop_num_order. Qed.
+Theorem C04_all_order : forall os os', Permutation os os' ->
+  for_loop FAll 0 (map to_res os) = for_loop FAll 0 (map to_res os').
+Proof. exact for_loop_all_order. Qed.
+Theorem C04_none_order : forall os os', Permutation os os' ->
+  for_loop FNone 0 (map to_res os) = for_loop FNone 0 (map to_res os').
+Proof. exact for_loop_none_order. Qed.
+
 (* non-vacuity: a quantified condition over two strings with an undefined operand *)
 Example C04_example :
   let M := [[{| m_base := 0; m_off := 0; m_len := 2 |}]; []] in
@@ -76,3 +95,8 @@ Print Assumptions C04_or_is_exists.
 Print Assumptions C04_at_least_is_count.
 Print Assumptions C04_all_is_count.
 Print Assumptions C04_none_is_count.
+Print Assumptions C04_and_order.
+Print Assumptions C04_or_order.
+Print Assumptions C04_at_least_order.
+Print Assumptions C04_all_order.
+Print Assumptions C04_none_order.
